@@ -213,11 +213,28 @@ PROPS = {
 # Search aid (never a proof): scenarios of loomh/ run against the real crate under loom 0.7
 # (all interleavings up to a preemption bound, C11 memory model). A failure is a violation with the
 # scenario as replay; passing adds nothing to the proof level.
+# preemption injection (harness/src/bin/inject.rs + lean/ALock/Atomic/Accept.lean): primitives per property
+INJECT = {
+    "C01": ["mutex"],
+    "C02": ["rwlock"],
+    "C03": ["sem"],
+    "C04": ["once"],
+    "C10": ["mutex", "sem", "rwlock"],
+    "C11": ["rwlock"],
+    "C12": ["rwlock"],
+    "C14": ["mutex", "sem", "rwlock"],
+}
+# (prefix depth, number of injected calls)
+INJECT_BUDGET = {
+    "quick": {"mutex": (3, 2), "sem": (2, 2), "rwlock": (2, 1), "once": (3, 1)},
+    "thorough": {"mutex": (4, 2), "sem": (3, 2), "rwlock": (3, 1), "once": (4, 2)},
+}
+
 LOOM = {
     "C01": ["c01_try_lock", "c01_lock", "c05_three", "c01_blocking", "c05_starved", "c05_starved_held", "c05_barge"],
     "C02": ["c02_try", "c02_upgrade", "c02_async", "c06_mix", "c11_downgrade_async", "c11_upgrade_async",
             "c02_blocking", "c11_blocking"],
-    "C03": ["c03_add", "c03_excl", "c03_async", "c07_three", "c03_blocking"],
+    "C03": ["c03_add", "c03_excl", "c03_async", "c07_three", "c03_blocking", "c03_try_arc"],
     "C04": ["c04_blocking", "c04_publish", "c08_handover", "c08_blocking"],
     "C05": ["c01_lock", "c05_three", "c05_starved", "c05_starved_held", "c05_barge", "c01_blocking", "c10_mutex_cancel"],
     "C06": ["c02_async", "c06_mix", "c11_upgrade_async", "c02_blocking", "c10_rw_cancel", "c06_upgrade_race", "c06_write_race"],
